@@ -11,6 +11,7 @@ def dispatch (line : String) : String :=
     | "follow" => Drivers.Reader.handleFollow args
     | "lines" => Drivers.Reader.handleLines true args
     | "linecount" => Drivers.Reader.handleLines false args
+    | "joinlines" => Drivers.Reader.handleJoin args
     | _ => "unknown-kind"
   | _ => "bad-line"
 
